@@ -120,6 +120,12 @@ class Ctx:
             return pt.Bytes(e[1])
         if k == "hex":
             return pt.Bytes("base16", e[1])
+        if k == "b64":
+            return pt.Bytes("base64", e[1])
+        if k == "addr":
+            return pt.Addr(e[1])
+        if k == "enum":
+            return {"pay": pt.TxnType.Payment, "axfer": pt.TxnType.AssetTransfer, "noop": pt.OnComplete.NoOp, "optin": pt.OnComplete.OptIn}[e[1]]
         if k == "txn":
             f = e[1]
             if f == "sender":
@@ -168,6 +174,8 @@ class Ctx:
             return pt.Sha256(self.expr(e[1]))
         if k == "load":
             return self.vars[e[1]].load()
+        if k == "gvload":
+            return env.gvars[e[1]].load()
         if k == "dload":
             return self.dyns[e[1]].load()
         if k == "aget":
@@ -242,6 +250,14 @@ class Ctx:
         env = self.env
         if k == "store":
             return self.vars[s[1]].store(self.expr(s[2]))
+        if k == "pub":
+            v = self.vars[s[1]]
+            return pt.Seq(v.store(self.expr(s[2])), pt.Pop(v.load()))
+        if k == "gvstore":
+            return env.gvars[s[1]].store(self.expr(s[2]))
+        if k == "gvpub":
+            v = env.gvars[s[1]]
+            return pt.Seq(v.store(self.expr(s[2])), pt.Pop(v.load()))
         if k == "newvar":
             # create a local ScratchVar and initialise it at once
             v = pt.ScratchVar(TT[s[1]], s[3] if len(s) > 3 else None)
@@ -256,7 +272,7 @@ class Ctx:
         if k == "dstore":
             return self.dyns[s[1]].store(self.expr(s[2]))
         if k == "newabi":
-            a = abi.make(ABI_TYPES[s[1]])
+            a = abi.make(env.abi_type(s[1]))
             self.abis.append(a)
             return self._abiset(a, s[1], s[2])
         if k == "aset":
@@ -382,13 +398,13 @@ class Ctx:
         raise KeyError(vk)
 
 
-def _annotation(pk):
+def _annotation(pk, env):
     if pk[0] == "expr":
         return pt.Expr
     if pk[0] == "ref":
         return pt.ScratchVar
     if pk[0] == "abi":
-        return ABI_TYPES[pk[1]]
+        return env.abi_type(pk[1])
     if pk[0] == "none":
         return None
     raise KeyError(pk)
@@ -407,7 +423,21 @@ class ProgramEnv:
         self.eval_counts: dict = {}
         self.next_step = 0
         self.optimize_objs: dict = {}
+        self.comp_objs: dict = {}
+        self.gvars: list = []
+        self.nt_classes: dict = {}
+        self.shared_pool: dict | None = None  # options objects shared by all programs of a run
         self.main_ctx = Ctx(self)
+
+    def abi_type(self, name: str):
+        if name in ABI_TYPES:
+            return ABI_TYPES[name]
+        c = self.nt_classes.get(name)
+        if c is None:
+            fields = self.spec["ntypes"][name]
+            anns = {f"f{i}": abi.Field[ABI_TYPES[t]] for i, t in enumerate(fields)}
+            c = self.nt_classes[name] = type(name.capitalize() + "_" + str(self.spec.get("id", "")), (abi.NamedTuple,), {"__annotations__": anns})
+        return c
 
     # ---- subroutines -------------------------------------------------------------
     def define_sub(self, k: int):
@@ -440,7 +470,7 @@ class ProgramEnv:
         annotations = {}
         for i, pk in enumerate(params):
             pname = f"a{i}"
-            ann = _annotation(pk)
+            ann = _annotation(pk, self)
             if ann is None:
                 sig_params.append(inspect.Parameter(pname, inspect.Parameter.POSITIONAL_OR_KEYWORD))
             else:
@@ -450,9 +480,9 @@ class ProgramEnv:
                 annotations[pname] = ann
         if out_t is not None:
             sig_params.append(
-                inspect.Parameter("output", inspect.Parameter.KEYWORD_ONLY, annotation=ABI_TYPES[out_t])
+                inspect.Parameter("output", inspect.Parameter.KEYWORD_ONLY, annotation=self.abi_type(out_t))
             )
-            annotations["output"] = ABI_TYPES[out_t]
+            annotations["output"] = self.abi_type(out_t)
         impl.__signature__ = inspect.Signature(sig_params)
         impl.__annotations__ = annotations
         impl.__name__ = name
@@ -475,6 +505,8 @@ class ProgramEnv:
         k = st[0]
         if k == "defsub":
             self.define_sub(st[1])
+        elif k == "defglobals":
+            self.gvars = [pt.ScratchVar(TT[t], sid) for t, sid in self.spec.get("globals", [])]
         elif k == "stmt":
             self.built.append(self.main_ctx.stmt(st[1]))
         elif k == "final":
@@ -517,6 +549,10 @@ class ProgramEnv:
         if o is None:
             return None
         key = (o.get("ss"), o.get("fp"))
+        if o.get("shared") == "S" and self.shared_pool is not None:
+            if key not in self.shared_pool:
+                self.shared_pool[key] = pt.OptimizeOptions(scratch_slots=key[0], frame_pointers=key[1])
+            return self.shared_pool[key]
         if o.get("shared"):
             if key not in self.optimize_objs:
                 self.optimize_objs[key] = pt.OptimizeOptions(scratch_slots=key[0], frame_pointers=key[1])
@@ -530,6 +566,13 @@ class ProgramEnv:
         version = opts["version"]
         ac = bool(opts.get("ac"))
         sm = opts.get("sm")  # None | {"annotate": bool, "pcs": bool, "concise": bool}
+        if opts.get("reuse_comp") and self.spec["kind"] != "router" and sm is None:
+            # the same Compilation object compiled again ("compiling the same object again")
+            key = repr(sorted((k, repr(v)) for k, v in opts.items() if k != "reuse_comp"))
+            comp = self.comp_objs.get(key)
+            if comp is None:
+                comp = self.comp_objs[key] = pt.Compilation(self.ast, mode, version=version, assemble_constants=ac, optimize=optimize)
+            return comp.compile().teal, None
         if self.spec["kind"] == "router":
             if sm is None and not opts.get("via_compile"):
                 ap, cl, _contract = self.router.compile_program(
